@@ -27,7 +27,7 @@ fn main() {
     let t0 = std::time::Instant::now();
     let dt = t0.elapsed().as_nanos();
     println!(
-        "{} heap={:p} stack={:p} wall={} dt={} pid={} tid={} {}",
+        "{} heap={:p} stack={:p} wall={} dt={} pid={} tid={} {} urandom={}",
         out,
         &*boxed,
         &local,
@@ -38,6 +38,11 @@ fn main() {
         std::fs::read_to_string("/proc/self/status")
             .ok()
             .and_then(|s| s.lines().find(|l| l.starts_with("VmRSS:")).map(|l| l.split_whitespace().collect::<Vec<_>>().join("=")))
-            .unwrap_or_default()
+            .unwrap_or_default(),
+        {
+            use std::io::Read;
+            let mut b = [0u8; 4];
+            std::fs::File::open("/dev/urandom").and_then(|mut f| f.read_exact(&mut b)).map(|()| format!("{:02x}{:02x}{:02x}{:02x}", b[0], b[1], b[2], b[3])).unwrap_or_default()
+        }
     );
 }
